@@ -78,7 +78,7 @@ func main() {
 	}
 
 	if *gen != 0 {
-		emit(genCase(*gen, profileFor(*profile, 0), *deep))
+		emit(genCase(*gen, profileFor(*profile, 0), *deep, false))
 		return
 	}
 	if *replay != "" {
@@ -101,7 +101,7 @@ func main() {
 	for i := *from; i < *to; i++ {
 		seed := zzsim.Mix(*base, i) | 1
 		p := profileFor(*profile, i)
-		c := genCase(seed, p, *deep)
+		c := genCase(seed, p, *deep, i%64 == 0)
 		inflight = c
 		emit(line{Ev: "start", I: i, Seed: seed, Profile: p})
 		r := runCase(c)
